@@ -48,6 +48,7 @@ type succMsg struct {
 }
 
 type violMsg struct {
+	Op   *Op      `json:"op,omitempty"` // the call as executed when it differs from the enumerated one (spelling)
 	I    int      `json:"i"`
 	Msg  string   `json:"msg"`
 	Tags []string `json:"tags"`
@@ -111,6 +112,11 @@ func (r *rt) step(m *model, o Op, gen int8, prev []ent, prevValid, priorErr bool
 		ctr.CyclicInputs++
 	}
 	res.Err, res.Panic = errString(err), pan
+	ctr.IsolationChecks++
+	if iso := r.isolation(); iso != "" {
+		res.Kind, res.Detail = "registration calls on one DB affect the pipelines of another DB", iso
+		return
+	}
 	if pan != "" {
 		res.Kind, res.Detail = "panic inside the registration call", pan
 		return
@@ -490,6 +496,18 @@ func (w *worker) expand(job *jobMsg) resultMsg {
 				res.HarnessErr = fmt.Sprintf("restored state diverges from a fresh gorm.Open for %s: err %q vs %q, order %s vs %s", cfg.pathString(path), s.Err, l.Err, cfg.orderString(s.Order), cfg.orderString(l.Order))
 			}
 		}
+		if !job.Final && s.Kind == "" && s.Panic == "" {
+			// non-leaf levels: the same call in its other spellings, the same call on
+			// the other DBs, and the handles of the same DB
+			if v := w.variants(r, job, cfg, &m, o, gen, base, prev, prevValid, priorErr, s, path, &res); v != nil {
+				st = stViolation
+				res.NViol++
+				if len(res.Viols) < 3 {
+					res.Viols = append(res.Viols, *v)
+					res.Viols[len(res.Viols)-1].I = j
+				}
+			}
+		}
 		w.emitHash('S', bytesHash(seed, w.keyBuf))
 		oh := orderHash(seed, s.Order)
 		if s.Err != "" {
@@ -516,4 +534,50 @@ func has2(l []string, x string) bool {
 		}
 	}
 	return false
+}
+
+// variants re-executes a call that passed, from the same state: (i) in every
+// other spelling (After(y).Before(x), Match(true)...): full oracle, and the
+// result must equal the canonical spelling's (error, compiled order, registered
+// list apart from the match function); (ii) on the other DBs: r.db's pipeline
+// must not change; (iii) Session/WithContext handles share r.db's pipelines.
+func (w *worker) variants(r *rt, job *jobMsg, cfg *pipeCfg, m *model, o Op, gen int8, base snap, prev []ent, prevValid, priorErr bool, canon stepResult, path []Op, res *resultMsg) *violMsg {
+	canonList := string(appendProcKey(nil, r.a.proc, true))
+	mk := func(op Op, kind, detail string, s stepResult) *violMsg {
+		p2 := append(append([]Op{}, path[:len(path)-1]...), op)
+		m2 := *m
+		m2.apply(cfg, op, gen)
+		s.Detail = detail
+		return &violMsg{Msg: kind + "\n" + cfg.describe(job.Init, p2, s, r.listing()), Tags: m2.tags(cfg), Op: &op}
+	}
+	for _, sp := range spellings(o) {
+		if m.r[o.N].on {
+			break // duplicate registration: canonical spelling only
+		}
+		o2 := o
+		o2.S = sp
+		r.restore(base)
+		res.Ctr.SpellingVariants++
+		_, s2 := r.step(m, o2, gen, prev, prevValid, priorErr, &res.Ctr)
+		if s2.Kind != "" && !s2.Excused {
+			return mk(o2, s2.Kind, s2.Detail, s2)
+		}
+		list := string(appendProcKey(nil, r.a.proc, true))
+		if s2.Err != canon.Err || cfg.orderString(s2.Order) != cfg.orderString(canon.Order) || list != canonList {
+			return mk(o2, "the same registration written in another spelling gives a different pipeline", fmt.Sprintf("%s gives error %q, compiled %s; %s gives error %q, compiled %s", cfg.opString(o), canon.Err, cfg.orderString(canon.Order), cfg.opString(o2), s2.Err, cfg.orderString(s2.Order)), s2)
+		}
+	}
+	m2 := *m
+	m2.apply(cfg, o, gen)
+	if !m2.userCyclic(cfg) {
+		r.restore(base)
+		res.Ctr.IsolationChecks++
+		if d := r.reverseIsolation(o, gen); d != "" {
+			return mk(o, "registration calls on one DB affect the pipelines of another DB", d, canon)
+		}
+	}
+	if d := r.handlesShare(); d != "" {
+		return mk(o, "handles of one DB do not share its pipelines", d, canon)
+	}
+	return nil
 }
